@@ -200,18 +200,15 @@ wait:
 				case <-time.After(3 * time.Second):
 					hung = true
 				}
-				if len(t) > 2500 {
-					t = t[:2500] + "\n…"
+				if v := panicViolation(src, t, hung); v != nil {
+					return v
 				}
-				return core.Violf("internal-panic", "crash.Handler caught an internal panic (program still blocked 3 s later: %v):\nprogram:\n%s\ncrash report:\n%s", hung, src, t)
+				return nil
 			}
 		}
 	}
 	if t := newCrashText(); t != "" {
-		if len(t) > 2500 {
-			t = t[:2500] + "\n…"
-		}
-		return core.Violf("internal-panic", "crash.Handler caught an internal panic:\nprogram:\n%s\ncrash report:\n%s", src, t)
+		return panicViolation(src, t, false)
 	}
 	if r.Hung {
 		return core.Violf("hang", "the program never returned to its caller:\n%s\n%s", src, trimDump(r.Dump))
@@ -244,6 +241,40 @@ wait:
 		time.Sleep(2300 * time.Millisecond)
 	}
 	return nil
+}
+
+var siteRe = regexp.MustCompile(`function: (github\.com/lmorg/murex/[^\s(]+)\(`)
+
+// panicSite names the first murex function on the stack of a crash report.
+func panicSite(report string) string {
+	m := siteRe.FindStringSubmatch(report)
+	if m == nil {
+		return "unknown"
+	}
+	return strings.TrimPrefix(m[1], "github.com/lmorg/murex/")
+}
+
+func siteID(report string) string {
+	site := panicSite(report)
+	site = strings.NewReplacer("/", "-", "(", "", ")", "", "*", "").Replace(site)
+	return "C19-panic-" + site
+}
+
+// panicViolation builds the violation for a crash report; in survey mode
+// (building only) it records the report and returns nil.
+func panicViolation(src, report string, hung bool) *core.Violation {
+	id := siteID(report)
+	if dir := os.Getenv("VERIF_C19_COLLECT"); dir != "" {
+		os.MkdirAll(dir, 0o755)
+		if _, err := os.Stat(dir + "/" + id + ".txt"); err != nil {
+			os.WriteFile(dir+"/"+id+".txt", []byte("program:\n"+src+"\n"+report), 0o644)
+		}
+		return nil
+	}
+	if len(report) > 2500 {
+		report = report[:2500] + "\n…"
+	}
+	return core.Violf("internal-panic:"+id, "crash.Handler caught an internal panic in %s (program still blocked 3 s later: %v):\nprogram:\n%s\ncrash report:\n%s", panicSite(report), hung, src, report)
 }
 
 func trimDump(d string) string {
@@ -279,7 +310,12 @@ func classify(c Case) core.Class {
 	return core.Class{NonTrivial: true, Label: "cmd:" + label, Key: c.Source()}
 }
 
-func known(c Case, v *core.Violation) string { return "" }
+func known(c Case, v *core.Violation) string {
+	if strings.HasPrefix(v.Kind, "internal-panic:") {
+		return strings.TrimPrefix(v.Kind, "internal-panic:")
+	}
+	return ""
+}
 
 var spec = core.Spec[Case]{ID: "C19", Gen: gen, Check: check, Classify: classify, Known: known, Journal: true,
 	Sample: func(c Case) any { return c.Source() }}
